@@ -453,8 +453,13 @@ func c12CtrMain(args []string) error {
 					time.AfterFunc(30*time.Millisecond, cancel)
 				}
 				if c.What == "ptrace" {
+					lim := runner.Limit{TimeLimit: 200 * time.Second, MemoryLimit: runner.Size(2 << 30)}
+					if i%7 == 5 {
+						// a memory limit below what the process already uses: the run is ended at the very first stop
+						lim.MemoryLimit = runner.Size(1)
+					}
 					r := &ptrace.Runner{Args: append([]string{args[0], nonce}, pa...), Env: []string{"PATH=/usr/bin:/bin"}, Files: nullFiles(),
-						Seccomp: allowAllFilter(), Handler: allowAll{}, Limit: runner.Limit{TimeLimit: 200 * time.Second, MemoryLimit: runner.Size(2 << 30)}}
+						Seccomp: allowAllFilter(), Handler: allowAll{}, Limit: lim}
 					done := make(chan struct{})
 					go func() { r.Run(ctx); close(done) }()
 					<-done
